@@ -151,3 +151,21 @@ M("C06", "unknown-binary-is-zero", EXPRF, '                raise RuntimeError("o
 M("C06", "binary-base-8", EXPRF, '    elif number.startswith("0b"):\n        base = 2', '    elif number.startswith("0b"):\n        base = 8', "C06.R4")
 M("C06", "renumber-neutral", EXPRF, '    "&": 8,\n    "^": 9,\n    "|": 10,', '    "&": 6,\n    "^": 7,\n    "|": 8,', neutral=True)
 M("C06", "for-bounds-second-evaluator", CG, "    to_val = eval_expression(node.max_value, resolver)", "    to_val = int(node.max_value.tokens[0].token.value, 0)", "C06.R5")
+
+# ------------------------------------------------------------------ C04
+SYM = "a816/symbols.py"
+MAP = "a816/cpu/mapping.py"
+M("C04", "lorom-mask-64k", SYM, 'low_rom_bus.map("1", (0x00, 0x6F), (0x8000, 0xFFFF), mask=0x8000,', 'low_rom_bus.map("1", (0x00, 0x6F), (0x8000, 0xFFFF), mask=0x1_0000,', "C04.R1")
+M("C04", "lorom-mirror-short", SYM, "mirror_bank_range=(0x80, 0xCF))", "mirror_bank_range=(0x80, 0xBF))", "C04.R1")
+M("C04", "hirom-ram-before-rom", SYM, 'high_rom_bus.map("1", (0x40, 0x7F), (0, 0xFFFF), mask=0x1_0000, mirror_bank_range=(0xC0, 0xFF))\nhigh_rom_bus.map("2", (0x7E, 0x7F), (0, 0xFFFF), mask=0x1_0000, writeable=True)',
+  'high_rom_bus.map("2", (0x7E, 0x7F), (0, 0xFFFF), mask=0x1_0000, writeable=True)\nhigh_rom_bus.map("1", (0x40, 0x7F), (0, 0xFFFF), mask=0x1_0000, mirror_bank_range=(0xC0, 0xFF))', "C04.R1")
+M("C04", "mirror-lookup-exclusive", MAP, "for bank in range(mirror_bank_range[0], mirror_bank_range[1] + 1):", "for bank in range(mirror_bank_range[0], mirror_bank_range[1]):", "C04.R2")
+M("C04", "mirror-uses-primary-banks", MAP, "self.mappings[mirror_identifier] = Mapping(mirror_bank_range, address_range, mask, writeable)", "self.mappings[mirror_identifier] = Mapping(bank_range, address_range, mask, writeable)", "C04.R2")
+M("C04", "mapping-args-swapped", MAP, "self.mappings[identifier] = Mapping(bank_range, address_range, mask, writeable)", "self.mappings[identifier] = Mapping(address_range, bank_range, mask, writeable)", "C04.R")
+M("C04", "map-key-typo", CG, 'attributes["addr_range"],', 'attributes["bank_range"],', "C04.R3")
+M("C04", "unmapped-bank-defaults", MAP, "return self.mappings[self.lookup[bank]]", "return self.mappings[self.lookup.get(bank, next(iter(self.lookup.values())))]", "C04.R4")
+M("C04", "ram-gets-offset", MAP, "        else:\n            return None\n\n    def logical_address", "        else:\n            return value & 0x1FFFF\n\n    def logical_address", "C04.R4")
+M("C04", "offset-uses-last-bank", MAP, "return (bank - self.bank_range[0]) * self.mask + (value & ~self.mask & 0xFFFF)", "return (bank - self.bank_range[1]) * self.mask + (value & ~self.mask & 0xFFFF)", "C04.R5")
+M("C04", "inverse-drops-window-start", MAP, "return (bank + self.bank_range[0]) << 16 | (self.mask & 0xFFFF) + value % self.mask", "return (bank + self.bank_range[0]) << 16 | value % self.mask", "C04.R5")
+M("C04", "advance-from-logical", MAP, "logical_address = mapping.logical_address(physical_address + other)", "logical_address = mapping.logical_address(physical_address) + other", "C04.R5")
+M("C04", "formula-rewritten-neutral", MAP, "return (bank - self.bank_range[0]) * self.mask + (value & ~self.mask & 0xFFFF)", "return self.mask * (bank - self.bank_range[0]) + (value & 0xFFFF & ~self.mask)", neutral=True)
